@@ -196,6 +196,9 @@ Proof. intros X f g l H. rewrite filter_app, filter_idem, (filter_neg_nil f g l 
 Lemma removelast_snoc_length : forall {X} (L : list X) b x, length (removelast (L ++ [b]) ++ [x]) = length (L ++ [b]).
 Proof. intros. rewrite removelast_app_one. rewrite !app_length. reflexivity. Qed.
 
+Lemma two_shape : forall (l : list Z), 2 <= length l -> exists a b r, l = a :: b :: r.
+Proof. intros [|a [|b r]] H; simpl in H; try lia. exists a, b, r. reflexivity. Qed.
+
 Lemma db_range_set_last : forall s1 L b c, db_range s1 -> s_learned s1 = L ++ [b] -> clause_in (nv s1) c ->
   db_range (set_last_learned s1 c).
 Proof.
@@ -318,7 +321,7 @@ Qed.
 
 Lemma blk_s3_BI : blk_open <> 0 -> BI blk_s3 /\ cur_level blk_s3 = 0 /\ nv blk_s3 = nv s /\ db_eq s2 blk_s3.
 Proof.
-  intros Ho. destruct blk_s2 as (H2 & Hc2 & Hn2). unfold blk_s3. destruct (blk_open =? 1); [|repeat split; auto].
+  intros Ho. destruct blk_s2 as (H2 & Hc2 & Hn2). unfold blk_s3. destruct (blk_open =? 1); [|split; [exact H2 | split; [exact Hc2 | split; [exact Hn2 | apply db_eq_refl]]]].
   destruct (blk_first_open Ho) as [Hx1 Hx2]. set (x := nth 0 sorted 0%Z) in *.
   destruct (block_lits s n x Hx1) as (Hx0 & Hxr & _).
   split; [|split; [exact Hc2 | split; [unfold assign_lit; rewrite nv_assign; exact Hn2 | apply assign_db_eq]]].
@@ -327,20 +330,114 @@ Proof.
   - fold (nv s2). rewrite Hn2, Hnv. lia.
   - lia.
   - intros r _ Hlv. lia.
-  all: try discriminate. Show.
 Qed.
 
 Lemma blk_s4_BI : blk_open <> 0 -> BI blk_s4 /\ cur_level blk_s4 = 0 /\ nv blk_s4 = nv s.
 Proof.
   intros Ho. destruct (blk_s3_BI Ho) as (H3 & Hc3 & Hn3 & Hdb3). unfold blk_s4.
   destruct (Nat.leb_spec 2 (length sorted)) as [L|L]; [|auto].
-  destruct sorted as [|a [|b r]] eqn:Es; simpl in L; try lia. simpl nth.
+  destruct (two_shape sorted L) as (a & b & r & Es). rewrite Es. simpl nth.
   assert (asg_eq blk_s3 (add_watch b cidx (add_watch a cidx blk_s3))) as EA by (eapply asg_eq_trans; apply add_watch_asg).
   split; [|split; [rewrite (asg_eq_cur_level _ _ EA); exact Hc3 | unfold nv in *; destruct EA as (Q & _); rewrite Q; exact Hn3]].
   apply (BI_add_watch2 blk_s3 cidx a b r); auto.
   - rewrite (db_eq_n_clauses _ _ Hdb3). rewrite (proj1 blk_nclauses2). lia.
-  - rewrite (db_eq_get_clause _ _ _ Hdb3). rewrite blk_get2, Nat.eqb_refl. fold sorted. exact Es.
+  - rewrite (db_eq_get_clause _ _ _ Hdb3). rewrite blk_get2, Nat.eqb_refl. exact Es.
   - intros l. rewrite (db_eq_watch_list _ _ l Hdb3). destruct (blk_watch_fresh l) as [F1 F2]. rewrite F2. exact F1.
 Qed.
 
 End Block.
+
+(* ---------------------------------------------------------------- a decision *)
+Lemma BI_push_lim : forall s, BI s -> s_head s = length (s_trail s) -> BI (push_lim s).
+Proof.
+  intros s H Hh. pose proof (bi_ti s H) as [HT HD]. constructor.
+  - split; [apply push_lim_trail_inv; exact HT | apply (db_range_db_eq s); [apply push_lim_db_eq | reflexivity | exact HD]].
+  - exact (bi_nz s H).
+  - exact (bi_v0 s H).
+  - eapply watch_le_db_eq; [apply push_lim_db_eq | exact (bi_wle s H)].
+  - eapply big_ok_db_eq; [apply push_lim_db_eq | exact (bi_big s H)].
+  - apply (reason_inv_levels_frame s); auto. exact (bi_reason s H).
+  - apply (decision_first_levels_frame s); auto. exact (bi_dec s H).
+  - apply head_inv_push_lim; [exact (bi_head s H) | exact Hh].
+Qed.
+
+Lemma decide_BI : forall s v b, BI s -> s_head s = length (s_trail s) -> 1 <= v -> v < nv s -> val_of s v = None ->
+  BI (assign v b None (push_lim s)) /\ cur_level (assign v b None (push_lim s)) = S (cur_level s)
+  /\ nv (assign v b None (push_lim s)) = nv s.
+Proof.
+  intros s v b H Hh Hv1 Hv2 Hn. pose proof (BI_push_lim s H Hh) as H1. split; [|split].
+  - apply BI_assign; auto; [lia | discriminate|].
+    intros _. right. intros w Hw. change (level_of (push_lim s) w) with (level_of s w).
+    pose proof (level_le_cur s w (proj1 (bi_ti s H)) Hw) as Q. unfold cur_level in *. simpl. rewrite app_length. simpl. lia.
+  - unfold cur_level. simpl. rewrite app_length. simpl. lia.
+  - rewrite nv_assign. reflexivity.
+Qed.
+
+(* ---------------------------------------------------------------- one iteration of `while True:` *)
+Lemma reduce_db_nv : forall s, nv (reduce_db s) = nv s.
+Proof. intros s. unfold nv. destruct (reduce_db_asg s) as (Q & _). rewrite Q. reflexivity. Qed.
+
+Theorem main_step_LI : forall fuel P L L', LI P L -> main_step fuel P L = Cont L' -> LI P L'.
+Proof.
+  intros fuel P L L' HL E. destruct HL as [HB Hnv HA Hdec Hconf]. unfold main_step in E.
+  destruct (l_conflict L) as [| |ci] eqn:EC.
+  - (* no conflict *)
+    destruct (all_assigned (l_st L) (p_nvars P)) eqn:EAll.
+    + (* a model *)
+      match type of E with (if ?c then _ else _) = _ => destruct c end; [discriminate|].
+      change (l_st L) with (l_st L) in E.
+      pose proof (blk_s2 (l_st L) (p_nvars P) HB Hnv) as (H2 & Hc2 & Hn2).
+      fold (blk_open (l_st L) (p_nvars P)) in E.
+      destruct (Nat.eqb_spec (blk_open (l_st L) (p_nvars P)) 0) as [Ho|Ho].
+      * injection E as E. subst L'. constructor; simpl; auto. congruence.
+      * unfold with_prop in E.
+        pose proof (blk_s4_BI (l_st L) (p_nvars P) HB Hnv Ho) as (H4 & Hc4 & Hn4).
+        unfold blk_s4, blk_s3 in H4, Hc4, Hn4.
+        match type of E with match propagate ?f ?A ?x with _ => _ end = _ => destruct (propagate f A x) as [[s5 c]|] eqn:EP end; [|discriminate].
+        injection E as E. subst L'. eapply LI_after_propagate; [exact H4 | congruence | exact HA | symmetry; exact Hc4 | exact EP].
+    + destruct (l_oracle L) as [|v orc]; [discriminate|].
+      match type of E with (if ?c then _ else _) = _ => destruct c eqn:EV end; [|discriminate].
+      apply andb_prop in EV. destruct EV as [EV EV3]. apply andb_prop in EV. destruct EV as [EV1 EV2].
+      apply Nat.leb_le in EV1. apply Nat.leb_le in EV2.
+      assert (val_of (l_st L) v = None) as Hvn by (destruct (val_of (l_st L) v); [discriminate | reflexivity]).
+      destruct (decide_BI (l_st L) v (nth v (s_phase (l_st L)) true) HB Hconf EV1 ltac:(rewrite Hnv; lia) Hvn) as (H1 & Hc1 & Hn1).
+      unfold with_prop in E.
+      match type of E with match propagate ?f ?A ?x with _ => _ end = _ => destruct (propagate f A x) as [[s2 c]|] eqn:EP end; [|discriminate].
+      match type of E with (if ?c then _ else _) = _ => destruct c end; [discriminate|].
+      injection E as E. subst L'. eapply LI_after_propagate; [exact H1 | congruence | exact HA | | exact EP]. rewrite Hc1, Hdec. reflexivity.
+  - discriminate.
+  - (* a conflict *)
+    destruct (Nat.eqb_spec (l_dec_level L) 0) as [Hd0|Hd0]; [discriminate|].
+    destruct (analyze (l_st L) ci) as [[[lc bt] lbd]|] eqn:EA; [|discriminate].
+    destruct Hconf as [Hconf|Hconf]; [lia|].
+    pose proof (learn_BI (l_st L) ci lc bt lbd HB Hconf EA) as (H3 & Hc3 & Hn3). cbv zeta in H3, Hc3, Hn3.
+    match type of E with (if ?c then _ else _) = _ => destruct c end.
+    + match type of E with (if ?c then _ else _) = _ => destruct c end; [discriminate|].
+      destruct (luby_val (l_luby_idx L + 1)) as [lv|]; [|discriminate].
+      unfold with_prop in E.
+      match type of E with match propagate ?f ?A (reduce_db (unassign_to 0 ?x)) with _ => _ end = _ =>
+        destruct (propagate f A (reduce_db (unassign_to 0 x))) as [[s5 c]|] eqn:EP; [|discriminate];
+        assert (BI (unassign_to 0 x)) as H4 by (apply BI_unassign_to; exact H3);
+        assert (cur_level (unassign_to 0 x) = 0) as Hc4 by (apply cur_level_unassign_to; lia);
+        assert (nv (unassign_to 0 x) = nv (l_st L)) as Hn4 by (unfold nv; rewrite unassign_to_nvals; exact Hn3)
+      end.
+      injection E as E. subst L'. eapply LI_after_propagate; [apply reduce_db_BI; [exact H4 | exact Hc4] | | exact HA | | exact EP].
+      * rewrite reduce_db_nv. congruence.
+      * rewrite (asg_eq_cur_level _ _ (reduce_db_asg _)). symmetry. exact Hc4.
+    + unfold with_prop in E.
+      match type of E with match propagate ?f ?A ?x with _ => _ end = _ => destruct (propagate f A x) as [[s5 c]|] eqn:EP end; [|discriminate].
+      injection E as E. subst L'. eapply LI_after_propagate; [exact H3 | congruence | exact HA | symmetry; exact Hc3 | exact EP].
+Qed.
+
+(* every state of a run satisfies LI *)
+Theorem reach_LI : forall fuel P L0 L, LI P L0 -> reach fuel P L0 L -> LI P L.
+Proof. intros fuel P L0 L H0 R. induction R as [|L1 L2 R IH E]; [exact H0 | eapply main_step_LI; eauto]. Qed.
+
+(* (c) along a run: the clause learned from a conflict is entailed by the clause database of that moment *)
+Theorem learned_entailed_run : forall P L ci lc bt lbd, LI P L -> l_conflict L = CAt ci -> l_dec_level L <> 0 ->
+  analyze (l_st L) ci = Some (lc, bt, lbd) -> entails (db (l_st L)) lc.
+Proof.
+  intros P L ci lc bt lbd [HB Hnv HA Hdec Hconf] EC Hd EA. rewrite EC in Hconf. destruct Hconf as [Q|(Hci & Hfalse & _)]; [lia|].
+  destruct (BI_analyze_hyps _ HB) as (HT & Hnz & HR & HD).
+  exact (analyze_entailed _ ci lc bt lbd HT Hnz HR HD (get_clause_in_db _ ci Hci) Hfalse EA).
+Qed.
